@@ -21,11 +21,11 @@ A failed identity is only a candidate: concrete inputs with that zero pattern ar
 compiled function (engine L's cdylib drivers) and compared with Python's modular inverse; only a native
 disagreement is a violation.  Every run also cross-checks interpreter, specification and native code on random
 inputs (a disagreement that is not explained by a reported candidate is a machinery error)."""
-import itertools, re, time
+import re, time
 
 import z3
 
-from vlib.common import Obligation, log
+from vlib.common import Obligation
 from engines.polyid import terms as R
 from engines.polyid.interp import (Interp, Cell, Ref, IntV, BoolV, MaskV, Agg, UNIT, MirError, Unsupported, clone,
                                    strip_generics, short_type)
@@ -436,23 +436,6 @@ def native_tags(fname, tier):
     return tags[:1] if tier == "quick" else tags
 
 
-def drivers(mir, tier, only=None):
-    """native drivers for every (backend body, length, native instance) that will be posed"""
-    ds = []
-    for label, fname, item in find_bodies(mir):
-        ns = list(lengths(tier))
-        sub = sub_batch(mir, item)
-        if tier != "quick" and sub:
-            ns.append(sub + 1)
-        for tag in native_tags(fname, tier):
-            if only and not _selected(only, label, fname, tag):
-                continue
-            for n in ns:
-                if n:
-                    ds.append(native_driver(tag, n))
-    return ds
-
-
 def _selected(only, label, fname, tag=None):
     keys = [k for k in only if k not in ("batch", "sqrt", "lin")]
     if not keys:
@@ -486,6 +469,20 @@ def check_one(mir, built, tier, label, fname, item, n, sub, tags):
         it, xs, res = execute(mir, item, n)
     except (MirError, Unsupported, RecursionError) as e:
         ob = Obligation(name, "P", [fn], "slice length %d" % n, "result[i] = 1/x[i], zeros preserved")
+        if "assertion failed" in str(e) and n:
+            # a bounds check (or another MIR assert) fails for this length whatever the data: a panic candidate
+            from .lhelp import native_crashes
+            r = rng("binv", label, n)
+            for tag in tags:
+                f = F.BYTAG[tag]
+                a = []
+                for v in sample_values(f, n, frozenset(), r):
+                    a += int_limbs(repr_of(f, v, r), f.n)
+                crashed, msg = native_crashes(built, "drv_%s_binv%d" % (tag, n), {"a": a})
+                if crashed:
+                    return [ob.fail({"key": "%s.batch_invert" % base[:-3], "inputs": {"a": hexl(a)}, "length": n, "type": f.rust,
+                                     "native": "panic: " + msg[-200:], "found_by": "MIR assert fails (%s); native run aborts" % str(e)[:160],
+                                     "driver": "drv_%s_binv%d" % (tag, n)}, "interp+native", time.time() - t0, 0)]
         return [ob.unknown("interpreter: %s" % str(e)[:300])]
     if n == 0:
         ob = Obligation(name, "P", [fn], "empty slice", "returns without touching anything (no index or arithmetic panic)")
@@ -543,7 +540,7 @@ def check_one(mir, built, tier, label, fname, item, n, sub, tags):
                        % (len(cands), sorted(Z), det[:300]), "z3", secs, nq)]
 
 
-BOUNDS = ("batch_invert: slice lengths 1..4 (quick) / 1..8 and sub-batch size + 1 (thorough), every element an "
+BOUNDS = ("batch_invert: slice lengths 0..4 (quick) / 0..8 and sub-batch size + 1 (thorough: 201, 201, 201, 101, 147), every element an "
           "arbitrary field element (abstract), all zero patterns for lengths <= 8, a listed family for the long one; "
           "one MIR body per backend file, so every instantiation of GF255<MQ> / ModInt256<..> is covered by its generic body")
 ASSUMPTIONS = ["batch_invert: field multiplication, iszero, set_cond are the C01/C20 contracts (abstract commutative ring, "
